@@ -13,6 +13,15 @@ import Driver.OpsGlob
 import Driver.OpsVersion
 import Driver.OpsProc
 import Driver.OpsFs
+import Driver.OpsHash
+import Driver.OpsRelr
+import Driver.OpsNotes
+import Driver.OpsRelocValue
+import Driver.OpsLayout
+import Driver.OpsAlloc
+import Driver.OpsInitFini
+import Driver.OpsThunks
+import Driver.OpsSymTab
 /-! `wmdriver`: evaluates the executable Lean models on the same line protocol as `wvh`. -/
 namespace Driver
 
@@ -37,6 +46,15 @@ def dispatch (t : List String) : String :=
       <|> (opsVersion t)
       <|> (opsProc t)
       <|> (opsFs t)
+      <|> (opsHash t)
+      <|> (opsRelr t)
+      <|> (opsNotes t)
+      <|> (opsRelocValue t)
+      <|> (opsLayout t)
+      <|> (opsAlloc t)
+      <|> (opsInitFini t)
+      <|> (opsThunks t)
+      <|> (opsSymTab t)
       -- <|> (opsFoo t)
     r.getD "bad-op"
 
